@@ -230,6 +230,22 @@ theorem failed_job_never_reports_success_partial {g : List NodeInfo} {s0 : State
   exact ⟨hb.failed, hb.unfinished, hfj, hnd,
     fun hfin => by rw [(hfin.2 n (by rw [hnodes]; exact hn)).1] at hnd; cases hnd⟩
 
+/-- the case of `failed_job_never_reports_success_partial` in which NOTHING is assumed beyond what
+is observed: the JOIN of a listed, unfinished stage fork is seen failed in a reachable state
+(`FailSite.join` has no side condition).  Then along every continuation in which the join is
+not reset the fork never finishes, its node is never Complete/Disabled and the pipestance is
+never `Finished`.  (For a failed chunk or split the side conditions of `FailSite` — the join
+directory still empty; for the split also no chunk submitted — remain assumptions: that is the
+gap named in `failed_job_never_reports_success_partial`.) -/
+theorem failed_join_never_reports_success {g : List NodeInfo} {s0 : State}
+    {σ : Nat → State} {es : Nat → Ev} {n f : Nat} (hr : Reach g s0)
+    (hrun : Run s0 σ es) (hnr : ∀ i, es i ≠ .reset ⟨n, f, .join⟩)
+    (hk : s0.kind n ≠ .pipeline) (hfail : s0.st ⟨n, f, .join⟩ = some .failed)
+    (hopen : fmDone s0 n f = false) (hn : n < s0.nodes.length) (hf : f ∈ s0.forksOf n) :
+    ∀ j, (σ j).st ⟨n, f, .join⟩ = some .failed ∧ fmDone (σ j) n f = false ∧
+      f ∈ (σ j).forksOf n ∧ nodeDone (σ j) n = false ∧ ¬ Finished (σ j) :=
+  failed_job_never_reports_success_partial hr hrun hnr ⟨hk, hfail, hopen, .join⟩ hn hf
+
 /-- one step of it, in any reachable state -/
 theorem failed_blocks_fork {g : List NodeInfo} {s : State} {e : Ev} {n f : Nat} {o : Obj}
     (hr : Reach g s) (hen : enabled s e = true) (hne : e ≠ .reset o) (h : FailedBlock s n f o) :
@@ -415,6 +431,21 @@ def sFailedChunk : State :=
 
 example : FailedBlock sFailedChunk 0 0 ⟨0, 0, .chunk 0⟩ :=
   ⟨by decide, by decide, by decide, .chunk 0 (by decide) ⟨by decide, by decide⟩⟩
+
+/-- the premises of `failed_join_never_reports_success` in a reachable state: the chunk completes,
+the join is submitted and fails -/
+def hFailedJoin : List Ev :=
+  [.fork 0 0, .nodestate 0 .running, .refresh, .launch ⟨0, 0, .split⟩,
+   .joblog ⟨0, 0, .split⟩, .jobend ⟨0, 0, .split⟩ .complete, .R ⟨0, 0, .split⟩ .complete,
+   .mkchunks 0 0 1, .launch ⟨0, 0, .chunk 0⟩, .joblog ⟨0, 0, .chunk 0⟩,
+   .jobend ⟨0, 0, .chunk 0⟩ .complete, .R ⟨0, 0, .chunk 0⟩ .complete, .launch ⟨0, 0, .join⟩,
+   .joblog ⟨0, 0, .join⟩, .jobend ⟨0, 0, .join⟩ .errors, .R ⟨0, 0, .join⟩ .errors]
+def sFailedJoin : State := prefixState (init gS) hFailedJoin hFailedJoin.length
+
+example : Reach gS sFailedJoin := run_reach (run_of_list _ hFailedJoin (by decide)) _
+example : sFailedJoin.kind 0 ≠ .pipeline ∧ sFailedJoin.st ⟨0, 0, .join⟩ = some .failed ∧
+    fmDone sFailedJoin 0 0 = false ∧ 0 < sFailedJoin.nodes.length ∧ 0 ∈ sFailedJoin.forksOf 0 := by
+  decide
 
 /-- Negative witness for the hypothesis `reopened = false` of the `…_partial` theorems above:
 node 0 has no fork at first (it counts as Disabled), its consumer node 1 runs and completes;
